@@ -53,6 +53,8 @@ func TestColdStart(t *testing.T) {
 			}
 		}
 		judge(Case{Kind: "bytes", Data: ""}, w)
+		judge(Case{Kind: "bytes", Data: vkit.B([]byte{1, 0})}, w)
+		judge(Case{Kind: "bytes", Data: vkit.B([]byte{2, 0, 0, 7, 232, 2, 29})}, w)
 		judge(Case{Kind: "bytes", Data: vkit.B(append(encode(2024, 2, 29), 0))}, w)
 		judge(Case{Kind: "bytes", Data: vkit.B(encode(2024, 2, 29)[:6])}, w)
 	})
